@@ -205,7 +205,7 @@ func RunHistory(rng *common.Rng, cfg Config) (*Run, error) {
 		if (o.Cmd == "copy" || o.Cmd == "move") && m.Selected && o.Mb == m.Mb {
 			selfReadd[o.S] = true
 		}
-		if o.Cmd == "searchbad" {
+		if o.Cmd == "searchbad" || o.Cmd == "fetchbadpart" {
 			// a refused SEARCH: still no EXPUNGE may be sent, and the mirror is fed as usual
 			for _, r := range obs.Out {
 				if r.Kind == "EXPUNGE" {
@@ -234,7 +234,7 @@ func RunHistory(rng *common.Rng, cfg Config) (*Run, error) {
 			}
 		}
 		// ---- C05 oracle ----
-		restricted := o.Cmd == "store" || o.Cmd == "fetchbody" || o.Cmd == "fetchflagsbody" || o.Cmd == "probe" || o.Cmd == "search"
+		restricted := o.Cmd == "store" || o.Cmd == "fetchbody" || o.Cmd == "fetchflagsbody" || o.Cmd == "fetchbadpart" || o.Cmd == "probe" || o.Cmd == "search"
 		permitting := o.Cmd == "noop" || o.Cmd == "check" || o.Cmd == "expunge" || o.Cmd == "move" || o.Cmd == "idle" ||
 			(o.Cmd == "append" && m.Selected && m.Mb == o.Mb)
 		if restricted {
@@ -607,7 +607,10 @@ func RunHistory(rng *common.Rng, cfg Config) (*Run, error) {
 			if n == 0 {
 				continue
 			}
-			o = Op{Kind: "cmd", S: s, Cmd: []string{"fetchbody", "fetchflagsbody"}[rng.Pick(2)], Ps: pickPs(n)}
+			o = Op{Kind: "cmd", S: s, Cmd: []string{"fetchbody", "fetchflagsbody", "fetchbadpart"}[rng.Pick(3)], Ps: pickPs(n)}
+			if o.Cmd == "fetchbadpart" {
+				o.Ps = o.Ps[:1]
+			}
 		case x < 56:
 			o = Op{Kind: "cmd", S: s, Cmd: "probe"}
 		case x < 59:
